@@ -315,6 +315,21 @@ def relations(res):
         res.fail("memory-meaning:dkmax=4 with a first compute() of 2 steps, then continued",
                  {"dkmax": 4, "first_call_steps": 2, "total_steps": 7,
                   "difference_to_one_call": err})
+    # (d) a convergence check: the same cell first with a coarse, then with a tight tolerance —
+    #     the tight request must be integrated to ITS tolerance (closed form of the ohmic bath
+    #     with exponential cutoff at T = 0: eta(t) = 2 alpha (ln(1 + i wc t) - i wc t))
+    conv = oqupy.PowerLawSD(alpha=0.3, zeta=1.0, cutoff=30.0, cutoff_type="exponential", temperature=0.0)
+    worst = 0.0
+    for tt in (0.05, 0.7):
+        conv.eta_function(tt, epsrel=1e-3)
+        tight = conv.eta_function(tt, epsrel=1e-11)
+        exact = 2 * 0.3 * (np.log(1 + 1j * 30.0 * tt) - 1j * 30.0 * tt)
+        worst = max(worst, abs(tight - exact) / abs(exact))
+    res.case("relation:coarse-then-tight", True, {"relative_error_of_the_tight_value": worst})
+    if worst > 1e-9:
+        res.fail("tolerance:a tight request after a coarse one on the same spectral density",
+                 {"sequence": "eta_function(t, epsrel=1e-3); eta_function(t, epsrel=1e-11)",
+                  "alpha": 0.3, "cutoff": 30.0, "relative_error_vs_closed_form": worst})
     again = run(0.0, 0.1, sysm, 8)            # the System object of the first run, half the step
     fresh = run(0.0, 0.1, oqupy.System(h), 8)
     err = float(np.abs(again - fresh).max())
